@@ -676,13 +676,4 @@ def create (p : Prims) (cfg : Config) (autosort embedded : Bool) (desc : List (S
   | .error e => .error e
   | .ok (ty, d, st) => finish p cfg autosort ty d st
 
-/-- no member holds a value of the wrong Python class -/
-def wellTypedN : Nat → Val → Bool
-  | 0, _ => false
-  | n + 1, v =>
-    match v with
-    | .struct ty fs => !(ty == "<raw>" || ty == "<str>") && fs.all fun nv => wellTypedN n nv.2
-    | .arr l => l.all (wellTypedN n)
-    | _ => true
-
 end SymbolVerif.Sdk.Descriptor
